@@ -2,8 +2,8 @@
 
    Part 1 (generic): hash_single's persistent-key branch + PersistentCache.get_or_calculate_hash,
      over an arbitrary file system, an arbitrary key projection K and an arbitrary content hash.
-   Part 2 (concrete): a Unix file system (names, symlinks, one level of directories, inode table,
-     hard links) with the operations of the property's alphabet, and the two key projections:
+   Part 2 (concrete): a Unix file system (names, symlinks, a tree of directories of any depth
+     given by a parent function on directory ids, inode table, hard links) with the operations of the property's alphabet, and the two key projections:
        K_pinned  = (type, paths, lstat mtime_ns of the paths)            -- before commit 39d1fa1f
        K_fixed   = (type, paths, (file, ino, mtime, ctime, size) of every file hashed) -- current code
    No proofs in this file. *)
@@ -118,7 +118,9 @@ Arguments c_mems {Key Digest} c.
 (* ================================================================== Part 2: the file system *)
 Definition name := nat.
 Definition ino := nat.
-Inductive path := Top (n : name) | Sub (d : name) (n : name).   (* <root>/f<n>  |  <root>/d<d>/f<n> *)
+(* <root>/f<n>  |  <directory d>/f<n>; directories are identified by ids, their nesting is given by
+   a parent function (directory d lives in directory p when parent d = Some p, in the root otherwise) *)
+Inductive path := Top (n : name) | Sub (d : name) (n : name).
 
 Record file := mkFile { f_content : string; f_mtime : nat; f_ctime : nat }.
 Definition f_size (f : file) : nat := String.length (f_content f).
@@ -231,6 +233,8 @@ Inductive fop :=
 Section FsModel.
   (* now k: the kernel clock value stamped by the k-th operation *)
   Variable now : nat -> nat.
+  (* where a directory id lives: Some p = inside directory p, None = in the root *)
+  Variable parent : name -> option name.
 
   Definition create (t : nat) (s : fsys) (p : path) (i : ino) (c : string) (m : nat) : option fsys :=
     if live s i then None
@@ -318,9 +322,18 @@ Section FsModel.
     | _ => None
     end.
 
+  (* the directory holding the new one must exist, and gets its mtime/ctime stamped *)
   Definition op_mkdir (t : nat) (s : fsys) (d : name) : option fsys :=
     match aget d (dirs s) with
-    | None => Some (with_dirs s (aset d (mkDir t t []) (dirs s)))
+    | None =>
+        match parent d with
+        | None => Some (with_dirs s (aset d (mkDir t t []) (dirs s)))
+        | Some p =>
+            match aget p (dirs s) with
+            | Some pr => Some (with_dirs s (aset d (mkDir t t []) (aset p (mkDir t t (d_entries pr)) (dirs s))))
+            | None => None
+            end
+        end
     | Some _ => None
     end.
 
@@ -351,35 +364,76 @@ Definition target_exists (t : target) (s : fsys) : bool :=
   | TDir d => match aget d (dirs s) with Some _ => true | None => false end
   end.
 
-Fixpoint ins_name (e : name * ino) (l : list (name * ino)) : list (name * ino) :=
+(* relative name of a hashed file inside its fileset: (0, n) = file n directly in the target
+   (the single file of a File is (0, 0)), (S x, n) = file n of the nested directory with id x *)
+Definition rel := (nat * nat)%type.
+Definition rel_leb (a b : rel) : bool :=
+  Nat.ltb (fst a) (fst b) || (Nat.eqb (fst a) (fst b) && Nat.leb (snd a) (snd b)).
+Fixpoint ins_rel (e : rel * ino) (l : list (rel * ino)) : list (rel * ino) :=
   match l with
   | [] => [e]
-  | x :: r => if Nat.leb (fst e) (fst x) then e :: x :: r else x :: ins_name e r
+  | x :: r => if rel_leb (fst e) (fst x) then e :: x :: r else x :: ins_rel e r
   end.
-Definition sort_names (l : list (name * ino)) : list (name * ino) := fold_right ins_name [] l.
+Definition sort_rel (l : list (rel * ino)) : list (rel * ino) := fold_right ins_rel [] l.
 
-(* the files whose bytes enter the hash: (relative name, inode); the single file of a File has the
-   relative name "." (coded 0), the files of a Directory are walked in sorted order *)
-Definition members (t : target) (s : fsys) : list (name * ino) :=
+(* directory x is the directory d or lies (at any depth) below it *)
+Fixpoint under (parent : name -> option name) (fuel : nat) (d x : name) : bool :=
+  Nat.eqb x d ||
+  match fuel with
+  | 0 => false
+  | S f => match parent x with Some p => under parent f d p | None => false end
+  end.
+
+(* the files whose bytes enter the hash: (relative name, inode).  A Directory is walked
+   recursively (os.walk): every regular file of the directory and of every directory below it. *)
+Definition members (parent : name -> option name) (t : target) (s : fsys) : list (rel * ino) :=
   match t with
-  | TFile p => match resolve s p with NReg i => [(0, i)] | _ => [] end
-  | TDir d => match aget d (dirs s) with Some dr => sort_names (d_entries dr) | None => [] end
+  | TFile p => match resolve s p with NReg i => [((0, 0), i)] | _ => [] end
+  | TDir d =>
+      match aget d (dirs s) with
+      | Some _ =>
+          sort_rel (flat_map (fun xd =>
+                      if under parent 16 d (fst xd)
+                      then map (fun e => ((if Nat.eqb (fst xd) d then 0 else S (fst xd), fst e), snd e))
+                               (d_entries (snd xd))
+                      else []) (dirs s))
+      | None => []
+      end
   end.
 
 (* the content hash, kept symbolic: the type of the fileset and the (name, bytes) pairs that
    fileset.byte_chunks() yields.  blake2b of it is what pydra stores; nothing about blake2b is used. *)
-Definition digest := (bool * list (name * option string))%type.
-Definition content_hash (t : target) (s : fsys) : digest :=
+Definition digest := (bool * list (rel * option string))%type.
+Definition content_hash (parent : name -> option name) (t : target) (s : fsys) : digest :=
   (match t with TFile _ => false | TDir _ => true end,
-   map (fun e => (fst e, option_map f_content (aget (snd e) (itab s)))) (members t s)).
+   map (fun e => (fst e, option_map f_content (aget (snd e) (itab s)))) (members parent t s)).
 
 (* key of the current code (hashed_file_stats): for every hashed file its inode, mtime, ctime, size *)
-Definition kstat := (name * ino * option (nat * nat * nat))%type.
+Definition kstat := (rel * ino * option (nat * nat * nat))%type.
 Definition key := (target * list kstat)%type.
-Definition K_fixed (t : target) (s : fsys) : key :=
+Definition K_fixed (parent : name -> option name) (t : target) (s : fsys) : key :=
   (t, map (fun e => (fst e, snd e,
                      option_map (fun f => (f_mtime f, f_ctime f, f_size f)) (aget (snd e) (itab s))))
-          (members t s)).
+          (members parent t s)).
+
+(* a key that stats only the entries of a directory itself (files: as K_fixed; a nested directory:
+   its own mtime/ctime), "a nested directory is covered by its own stat" — it is not *)
+Definition K_shallow (parent : name -> option name) (t : target) (s : fsys) : key :=
+  match t with
+  | TFile _ => K_fixed parent t s
+  | TDir d =>
+      (t, flat_map (fun xd =>
+             if Nat.eqb (fst xd) d
+             then map (fun e => ((0, fst e), snd e,
+                                 option_map (fun f => (f_mtime f, f_ctime f, f_size f)) (aget (snd e) (itab s))))
+                      (d_entries (snd xd))
+             else match parent (fst xd) with
+                  | Some p => if Nat.eqb p d
+                              then [((S (fst xd), 0), 0, Some (d_mtime (snd xd), d_ctime (snd xd), 0))]
+                              else []
+                  | None => []
+                  end) (dirs s))
+  end.
 
 (* key before the repair: lstat().st_mtime_ns of the fileset's own paths *)
 Definition lstat_mtime (t : target) (s : fsys) : option nat :=
@@ -392,7 +446,7 @@ Definition lstat_mtime (t : target) (s : fsys) : option nat :=
   | TDir d => option_map d_mtime (aget d (dirs s))
   end.
 Definition K_pinned (t : target) (s : fsys) : key :=
-  (t, [(0, 0, option_map (fun m => (m, 0, 0)) (lstat_mtime t s))]).
+  (t, [((0, 0), 0, option_map (fun m => (m, 0, 0)) (lstat_mtime t s))]).
 
 Definition target_eqb (a b : target) : bool :=
   match a, b with
@@ -404,16 +458,18 @@ Definition triple_eqb (a b : nat * nat * nat) : bool :=
   let '(a1, a2, a3) := a in let '(b1, b2, b3) := b in Nat.eqb a1 b1 && Nat.eqb a2 b2 && Nat.eqb a3 b3.
 Definition kstat_eqb (a b : kstat) : bool :=
   let '(n, i, x) := a in let '(m, j, y) := b in
-  Nat.eqb n m && Nat.eqb i j && option_eqb triple_eqb x y.
+  Nat.eqb (fst n) (fst m) && Nat.eqb (snd n) (snd m) && Nat.eqb i j && option_eqb triple_eqb x y.
 Definition key_eqb (a b : key) : bool :=
   target_eqb (fst a) (fst b) && list_eqb kstat_eqb (snd a) (snd b).
 
 (* the model of hashing histories with the current key, and with the key before the repair *)
 Definition hist := list (@gop target fop).
-Definition model_states (now : nat -> nat) (K : target -> fsys -> key) (h : hist) :=
-  run_states fsys target key digest fop key_eqb target_exists K content_hash (fstep now) (fs_empty, cempty _ _) h.
-Definition model_outputs (now : nat -> nat) (K : target -> fsys -> key) (h : hist) : list (option digest) :=
-  outputs fsys target key digest fop key_eqb target_exists K content_hash (fstep now) fs_empty h.
+Definition model_states (now : nat -> nat) (parent : name -> option name) (K : target -> fsys -> key) (h : hist) :=
+  run_states fsys target key digest fop key_eqb target_exists K (content_hash parent) (fstep now parent)
+             (fs_empty, cempty _ _) h.
+Definition model_outputs (now : nat -> nat) (parent : name -> option name) (K : target -> fsys -> key) (h : hist)
+  : list (option digest) :=
+  outputs fsys target key digest fop key_eqb target_exists K (content_hash parent) (fstep now parent) fs_empty h.
 
 (* ------------------------------------------------------------------ observations for the tie *)
 Definition path_code (p : path) : nat := match p with Top n => n | Sub d n => 100 + 10 * d + n end.
@@ -436,4 +492,4 @@ Definition snap_eqb (a b : snap) : bool :=
   Nat.eqb a1 b1 && Nat.eqb a2 b2 && String.eqb a3 b3 && Nat.eqb a4 b4 && Nat.eqb a5 b5 && Nat.eqb a6 b6.
 Definition digest_eqb (a b : digest) : bool :=
   Bool.eqb (fst a) (fst b) &&
-  list_eqb (pair_eqb Nat.eqb (option_eqb String.eqb)) (snd a) (snd b).
+  list_eqb (pair_eqb (pair_eqb Nat.eqb Nat.eqb) (option_eqb String.eqb)) (snd a) (snd b).
